@@ -87,6 +87,7 @@ func (vm *vm) suspend(ectx *execCtx, tryStackLen, iterStackLen, refStackLen uint
 		ectx.refStack = append(ectx.refStack[:0], vm.refStack[refStackLen:]...)
 		vm.refStack = vm.refStack[:refStackLen]
 	}
+	vm.vtSeg("Suspend", len(ectx.tryStack), len(ectx.iterStack), len(ectx.refStack), len(ectx.stack))
 }
 
 func (vm *vm) resume(ctx *execCtx) {
@@ -106,6 +107,7 @@ func (vm *vm) resume(ctx *execCtx) {
 	vm.tryStack = append(vm.tryStack, ctx.tryStack...)
 	vm.iterStack = append(vm.iterStack, ctx.iterStack...)
 	vm.refStack = append(vm.refStack, ctx.refStack...)
+	vm.vtSeg("Resume", len(ctx.tryStack), len(ctx.iterStack), len(ctx.refStack), len(ctx.stack))
 }
 
 type iterStackItem struct {
@@ -637,6 +639,7 @@ func (vm *vm) run() {
 
 	if interrupted {
 		vm.interruptLock.Lock()
+		vm.vt("IntSeen", "")
 		v := &InterruptedError{
 			iface: vm.interruptVal,
 		}
@@ -686,11 +689,13 @@ func (vm *vm) Interrupt(v interface{}) {
 	vm.interruptLock.Lock()
 	vm.interruptVal = v
 	atomic.StoreUint32(&vm.interrupted, 1)
+	vm.vtAsync("IntSet")
 	vm.interruptLock.Unlock()
 }
 
 func (vm *vm) ClearInterrupt() {
 	atomic.StoreUint32(&vm.interrupted, 0)
+	vm.vtAsync("IntClear")
 }
 
 func getFuncName(stack []Value, sb int) unistring.String {
@@ -768,10 +773,12 @@ func (vm *vm) pushTryFrame(catchPos, finallyPos int32) {
 		finallyPos:   finallyPos,
 		finallyRet:   -1,
 	})
+	vm.vtTryPush(catchPos, finallyPos)
 }
 
 func (vm *vm) popTryFrame() {
 	vm.tryStack = vm.tryStack[:len(vm.tryStack)-1]
+	vm.vt("TryPop", "")
 }
 
 func (vm *vm) restoreStacks(iterLen, refLen uint32) (ex *Exception) {
@@ -779,6 +786,7 @@ func (vm *vm) restoreStacks(iterLen, refLen uint32) (ex *Exception) {
 	iterTail := vm.iterStack[iterLen:]
 	for i := len(iterTail) - 1; i >= 0; i-- {
 		if iter := iterTail[i].iter; iter != nil {
+			vm.vt("IterClose", "")
 			ex1 := vm.try(func() {
 				iter.returnIter()
 			})
@@ -789,6 +797,7 @@ func (vm *vm) restoreStacks(iterLen, refLen uint32) (ex *Exception) {
 		iterTail[i] = iterStackItem{}
 	}
 	vm.iterStack = vm.iterStack[:iterLen]
+	vm.vt("IterTrunc", "")
 	refTail := vm.refStack[refLen:]
 	for i := range refTail {
 		refTail[i] = nil
@@ -799,6 +808,7 @@ func (vm *vm) restoreStacks(iterLen, refLen uint32) (ex *Exception) {
 
 func (vm *vm) handleThrow(arg interface{}) *Exception {
 	ex := vm.exceptionFromValue(arg)
+	vm.vt("ThrowBegin", verifThrowClass(arg, ex))
 	for len(vm.tryStack) > 0 {
 		tf := &vm.tryStack[len(vm.tryStack)-1]
 		if tf.catchPos == -1 && tf.finallyPos == -1 || ex == nil && tf.catchPos != tryPanicMarker {
@@ -818,6 +828,7 @@ func (vm *vm) handleThrow(arg interface{}) *Exception {
 		_ = vm.restoreStacks(tf.iterLen, tf.refLen)
 
 		if tf.catchPos == tryPanicMarker {
+			vm.vt("Land", "marker")
 			break
 		}
 
@@ -826,6 +837,7 @@ func (vm *vm) handleThrow(arg interface{}) *Exception {
 			vm.push(ex.val)
 			vm.pc = int(tf.catchPos)
 			tf.catchPos = -1
+			vm.vt("Land", "catch")
 			return nil
 		}
 		if tf.finallyPos >= 0 {
@@ -834,6 +846,7 @@ func (vm *vm) handleThrow(arg interface{}) *Exception {
 			vm.pc = int(tf.finallyPos)
 			tf.finallyPos = -1
 			tf.finallyRet = -1
+			vm.vt("Land", "finally")
 			return nil
 		}
 	}
@@ -917,6 +930,7 @@ func (vm *vm) pushCtx() {
 	vm.callStack = append(vm.callStack, context{})
 	ctx := &vm.callStack[len(vm.callStack)-1]
 	vm.saveCtx(ctx)
+	vm.vt("CtxPush", "")
 }
 
 func (vm *vm) restoreCtx(ctx *context) {
@@ -934,6 +948,7 @@ func (vm *vm) popCtx() {
 	}
 
 	vm.callStack = vm.callStack[:l]
+	vm.vt("CtxPop", "")
 }
 
 func (vm *vm) toCallee(v Value) *Object {
@@ -2803,6 +2818,7 @@ func (_newArrayFromIter) exec(vm *vm) {
 	iter := vm.iterStack[l].iter
 	vm.iterStack[l] = iterStackItem{}
 	vm.iterStack = vm.iterStack[:l]
+	vm.vt("IterPop", "")
 	if iter.iterator != nil {
 		iter.iterate(func(val Value) {
 			values = append(values, val)
@@ -4783,6 +4799,7 @@ func (leaveTry) exec(vm *vm) {
 		tf.finallyPos = -1
 		tf.catchPos = -1
 		vm.sp, vm.stash = int(tf.sp), tf.stash
+		vm.vt("LeaveTry", "fin")
 	} else {
 		vm.popTryFrame()
 		vm.pc++
@@ -4796,6 +4813,7 @@ func (enterFinally) exec(vm *vm) {
 	tf.finallyPos = -1
 	tf.catchPos = -1
 	vm.pc++
+	vm.vt("EnterFinally", "")
 }
 
 type leaveFinally struct{}
@@ -4804,6 +4822,7 @@ func (leaveFinally) exec(vm *vm) {
 	tf := &vm.tryStack[len(vm.tryStack)-1]
 	ex, ret := tf.exception, tf.finallyRet
 	tf.exception = nil
+	vm.vt("LeaveFinally", verifFinallyKind(ex != nil, ret))
 	vm.popTryFrame()
 	if ex != nil {
 		vm.throw(ex)
@@ -5044,6 +5063,7 @@ func (_enumerate) exec(vm *vm) {
 	} else {
 		vm.iterStack = append(vm.iterStack, iterStackItem{f: enumerateRecursive(v.ToObject(vm.r))})
 	}
+	vm.vt("IterPush", "plain")
 	vm.sp--
 	vm.pc++
 }
@@ -5080,6 +5100,7 @@ func (_enumPop) exec(vm *vm) {
 	l := len(vm.iterStack) - 1
 	vm.iterStack[l] = iterStackItem{}
 	vm.iterStack = vm.iterStack[:l]
+	vm.vt("IterPop", "")
 	vm.pc++
 }
 
@@ -5092,6 +5113,7 @@ func (_enumPopClose) exec(vm *vm) {
 	item := vm.iterStack[l]
 	vm.iterStack[l] = iterStackItem{}
 	vm.iterStack = vm.iterStack[:l]
+	vm.vt("IterPop", "close")
 	if iter := item.iter; iter != nil {
 		iter.returnIter()
 	}
@@ -5105,6 +5127,7 @@ var iterateP _iterateP
 func (_iterateP) exec(vm *vm) {
 	iter := vm.r.getIterator(vm.stack[vm.sp-1], nil)
 	vm.iterStack = append(vm.iterStack, iterStackItem{iter: iter})
+	vm.vt("IterPush", "closable")
 	vm.sp--
 	vm.pc++
 }
@@ -5116,6 +5139,7 @@ var iterate _iterate
 func (_iterate) exec(vm *vm) {
 	iter := vm.r.getIterator(vm.stack[vm.sp-1], nil)
 	vm.iterStack = append(vm.iterStack, iterStackItem{iter: iter})
+	vm.vt("IterPush", "closable")
 	vm.pc++
 }
 
@@ -5136,6 +5160,7 @@ func (jmp iterNext) exec(vm *vm) {
 		l := len(vm.iterStack) - 1
 		vm.iterStack[l] = iterStackItem{}
 		vm.iterStack = vm.iterStack[:l]
+		vm.vt("IterPop", "err")
 		vm.throw(ex.val)
 		return
 	}
@@ -5154,6 +5179,7 @@ func (iterGetNextOrUndef) exec(vm *vm) {
 			l := len(vm.iterStack) - 1
 			vm.iterStack[l] = iterStackItem{}
 			vm.iterStack = vm.iterStack[:l]
+			vm.vt("IterPop", "err")
 			vm.throw(ex.val)
 			return
 		}
